@@ -92,6 +92,9 @@ def arrangements(d, name, T1, T2, full):
         ("target-in-items", None, "#" + enc(["dependencies", name, "items", 0]), "#" + p2,
          {"definitions": {name + "2": T2}, "dependencies@": {name: {"items": [T1]}}}, {}),
         ("whole-document", ROOT, "other.json", "other.json#", defs, {other: T1}),
+        ("target-at-index-10-and-20", None, "#" + enc(["dependencies", name, "items", 10]),
+         "#" + enc(["dependencies", name, "items", 20]), {"dependencies@": {name: {"items": [{}] * 10 + [T1] + [{}] * 9 + [T2]}}}, {}),
+        ("store-target-at-index-100", ROOT, "other.json#" + enc(["x", 100]), "#" + p2, defs, {other: {"x": [{}] * 100 + [T1]}}),
     ]
     # two documents whose URLs differ only in a reserved character being percent-encoded: different resources
     for tag, u1, u2 in (("slash", "a%2Fb.json", "a/b.json"), ("question", "f%3Fq.json", "f?q.json"),
@@ -170,7 +173,8 @@ def observe_mode(d, S, docs, x, mode):
       decoy-after  a second resolver for a decoy schema (same base URI, same names, other meanings) is constructed
                    with the first resolver's store object before the validator under test is used
       decoy-before the validator under test is constructed with the store object of a decoy's resolver
-      legacy-resolver the validator is given a resolver object that offers resolving() but no resolve()"""
+      legacy-resolver the validator is given a resolver object that offers resolving() but no resolve()
+      foreign-base-resolver the validator is given a RefResolver constructed with another base URI"""
     cls = _e1.CLS[d]
     failed_once = set()
     serving = {"on": mode != "late-store"}
@@ -209,6 +213,16 @@ def observe_mode(d, S, docs, x, mode):
     if mode == "legacy-resolver":
         r = RefResolver.from_schema(S, id_of=cls.ID_OF, store=store, handlers={"http": handler})
         return errs(cls(S, resolver=LegacyResolver(r)))
+    if mode == "foreign-base-resolver":
+        # a resolver the caller built with a base URI of its own (as the command line's --base-uri does): the
+        # schema's root id, where there is one, is still entered when validation starts
+        # (the caller also files the schema under the URI it declares for itself, so that references into
+        # "the same document" written relative to that id find it)
+        rid = S.get(model.IDK[d]) if isinstance(S, dict) else None
+        if isinstance(rid, str) and rid:
+            store[rid] = S
+        r = RefResolver(base_uri=ELSEWHERE, referrer=S, store=store, handlers={"http": handler})
+        return errs(cls(S, resolver=r))
     D = decoy_of(S, d)
     if mode == "decoy-after":
         r = RefResolver.from_schema(S, id_of=cls.ID_OF, store=store, handlers={"http": handler})
@@ -250,7 +264,8 @@ class LegacyResolver(object):
         return self._inner.resolving(ref)
 
 
-MODES = ("flaky", "late-store", "decoy-after", "decoy-before", "legacy-resolver")
+MODES = ("flaky", "late-store", "decoy-after", "decoy-before", "legacy-resolver", "foreign-base-resolver")
+ELSEWHERE = "http://elsewhere.invalid/checkout/"
 MODE_INST = 4       # the extra environment modes meet the first instances of the family
 
 
@@ -441,8 +456,8 @@ def plan(ctx):
                  "with store-only and with handler-served documents, and for the first 4 instances also with a "
                  "handler that fails once per document, with documents put into resolver.store after a failed "
                  "validation, with a decoy resolver (same base URI and names, other meanings) built from / "
-                 "feeding the resolver's store object, and with a resolver object of the older interface "
-                 "(resolving() only); the designation model inlines every reference and the inlined schema is validated by "
+                 "feeding the resolver's store object, with a resolver object of the older interface "
+                 "(resolving() only), and with a resolver constructed with another base URI; the designation model inlines every reference and the inlined schema is validated by "
                  "the implementation; distinct by construction (label is unique); non-trivial = the expected "
                  "error multiset is non-empty"),
         "bounds": {"names": len(NAMES if ctx.thorough else NAMES_Q), "instances": len(INST), "tier": ctx.tier},
